@@ -61,6 +61,12 @@ fn program_case(t: &mut Tape, ctx: &Ctx, o: &mut Outcome) {
         }
     }
     p.ops.push(Op::DPending { which: 0, null_pending: false, null_bits: false });
+    if std::env::var("VERIF_DEBUG").is_ok() {
+        for (k, op) in p.ops.iter().enumerate() {
+            eprintln!("op {:2} {}", k, op_name(op));
+        }
+        eprintln!("data {} bytes: {}", p.data.len(), crate::json::hex(&p.data[..p.data.len().min(80)]));
+    }
     let ex = ARENAS.with(|ar| run_program_finish(&p, ar));
     let (ex, fin) = ex;
     for (k, op) in p.ops.iter().enumerate() {
